@@ -150,7 +150,16 @@ class Flow(object):
                     return MergedDict(snames)
                 else:
                     outer_names = set(snames).difference(self.scope.locals)
-                    return {n: snames[n] for n in outer_names}
+                    declared = self.scope.globals
+                    names = {n: snames[n] for n in outer_names if n not in declared}
+                    if declared:
+                        # names under a global declaration denote the module's
+                        # variables, whatever the enclosing functions bind
+                        tnames = self.scope.top.names
+                        for n in declared.difference(self.scope.locals):
+                            if n in tnames:
+                                names[n] = tnames[n]
+                    return names
             else:
                 return {}
 
